@@ -17,10 +17,11 @@ import (
 
 // WordRenderer Word文档渲染器
 type WordRenderer struct {
-	doc       *document.Document
-	opts      *ConvertOptions
-	source    []byte
-	listLevel int // 当前列表嵌套级别
+	doc        *document.Document
+	opts       *ConvertOptions
+	source     []byte
+	listLevel  int // 当前列表嵌套级别
+	quoteLevel int // 当前引用块嵌套级别
 }
 
 // Render 渲染AST为Word文档
@@ -149,6 +150,9 @@ func (r *WordRenderer) renderParagraph(node *ast.Paragraph) (ast.WalkStatus, err
 
 	// 创建段落
 	para := r.doc.AddParagraph("")
+	if r.quoteLevel > 0 {
+		para.SetStyle("Quote")
+	}
 
 	// 处理段落内容
 	r.renderInlineContent(node, para)
@@ -262,6 +266,9 @@ func (r *WordRenderer) renderListItem(node *ast.ListItem) (ast.WalkStatus, error
 			}
 			// 列表项自身的文本：符号 + 带格式的内联内容
 			para := r.doc.AddParagraph(prefix)
+			if r.quoteLevel > 0 {
+				para.SetStyle("Quote")
+			}
 			r.renderInlineContent(child, para)
 		case *ast.List:
 			// 嵌套列表的每一项各占一个段落（缩进一级）
@@ -305,11 +312,15 @@ func (r *WordRenderer) listItemMarker(textBlock ast.Node) string {
 
 // renderBlockquote 渲染引用块
 func (r *WordRenderer) renderBlockquote(node *ast.Blockquote) (ast.WalkStatus, error) {
-	text := r.extractTextContent(node)
+	// 引用块中的每个子块单独渲染，其中的段落使用Quote样式
+	r.quoteLevel++
+	defer func() { r.quoteLevel-- }()
 
-	// 创建引用段落，使用Quote样式
-	para := r.doc.AddParagraph(text)
-	para.SetStyle("Quote")
+	for child := node.FirstChild(); child != nil; child = child.NextSibling() {
+		if err := r.Render(child); err != nil {
+			return ast.WalkStop, err
+		}
+	}
 
 	return ast.WalkSkipChildren, nil
 }
